@@ -49,12 +49,12 @@ func streamHt(o opts) {
 				v, ok := h.Lookup(k, hashes[k])
 				rv, rok := ref[k]
 				if ok != rok || (ok && v != rv) {
-					m.violate("C12", fmt.Sprintf("after %s: lookup(key %d) = (%d,%v), reference map has (%d,%v)", ctx, k, v, ok, rv, rok), fmt.Sprintf("ht trace %d", t))
+					htViolate(m, fmt.Sprintf("after %s: lookup(key %d) = (%d,%v), reference map has (%d,%v)", ctx, k, v, ok, rv, rok), fmt.Sprintf("ht trace %d", t))
 					return
 				}
 			}
 			if h.Len() != len(ref) {
-				m.violate("C12", fmt.Sprintf("after %s: table length %d, reference map %d", ctx, h.Len(), len(ref)), fmt.Sprintf("ht trace %d", t))
+				htViolate(m, fmt.Sprintf("after %s: table length %d, reference map %d", ctx, h.Len(), len(ref)), fmt.Sprintf("ht trace %d", t))
 			}
 			got := map[int]int{}
 			dup := false
@@ -65,7 +65,7 @@ func streamHt(o opts) {
 				got[k] = v
 			})
 			if dup || len(got) != len(ref) {
-				m.violate("C12", fmt.Sprintf("after %s: forEach visits %d keys (dup=%v), reference map %d", ctx, len(got), dup, len(ref)), fmt.Sprintf("ht trace %d", t))
+				htViolate(m, fmt.Sprintf("after %s: forEach visits %d keys (dup=%v), reference map %d", ctx, len(got), dup, len(ref)), fmt.Sprintf("ht trace %d", t))
 			}
 		}
 		obs := func() []int64 { return []int64{int64(h.Len()), 0} }
@@ -73,7 +73,7 @@ func streamHt(o opts) {
 			_, tombs0, slots0, _ := h.Counters()
 			ok := h.Remove(k, hashes[k])
 			if _, in := ref[k]; in != ok {
-				m.violate("C12", fmt.Sprintf("remove(key %d) = %v but reference map residency is %v", k, ok, in), fmt.Sprintf("ht trace %d", t))
+				htViolate(m, fmt.Sprintf("remove(key %d) = %v but reference map residency is %v", k, ok, in), fmt.Sprintf("ht trace %d", t))
 			}
 			delete(ref, k)
 			_, tombs1, slots1, _ := h.Counters()
@@ -93,7 +93,7 @@ func streamHt(o opts) {
 				pv, had := h.Store(k, hashes[k], val)
 				rv, rhad := ref[k]
 				if had != rhad || (had && pv != rv) {
-					m.violate("C12", fmt.Sprintf("store(key %d) returned previous (%d,%v), reference (%d,%v)", k, pv, had, rv, rhad), fmt.Sprintf("ht trace %d", t))
+					htViolate(m, fmt.Sprintf("store(key %d) returned previous (%d,%v), reference (%d,%v)", k, pv, had, rv, rhad), fmt.Sprintf("ht trace %d", t))
 				}
 				ref[k] = val
 				w.O((&toks{}).I(1, int64(k)).U(hashes[k]).I(int64(val)), (&toks{}).B(had).I(int64(pv)).I(obs()...))
@@ -106,7 +106,7 @@ func streamHt(o opts) {
 				found, pv := h.Probe(k, hashes[k])
 				w.O((&toks{}).I(3, int64(k)).U(hashes[k]), (&toks{}).B(found).I(int64(pv)))
 				if _, in := ref[k]; in != found {
-					m.violate("C12", fmt.Sprintf("probe(key %d) found=%v, reference residency %v", k, found, in), fmt.Sprintf("ht trace %d", t))
+					htViolate(m, fmt.Sprintf("probe(key %d) found=%v, reference residency %v", k, found, in), fmt.Sprintf("ht trace %d", t))
 				}
 				if found {
 					h.SwapAt(k, hashes[k], val)
@@ -150,7 +150,7 @@ func streamHt(o opts) {
 				// and no other object replaced it; both sides track the same "last object"
 				if ok {
 					if !in {
-						m.violate("C12", fmt.Sprintf("removeExact(stale object of key %d) succeeded although the key is absent", k), fmt.Sprintf("ht trace %d", t))
+						htViolate(m, fmt.Sprintf("removeExact(stale object of key %d) succeeded although the key is absent", k), fmt.Sprintf("ht trace %d", t))
 					}
 					_ = v
 					delete(ref, k)
@@ -184,4 +184,12 @@ func streamHt(o opts) {
 	w.Close()
 	m.Traces, m.Ops = w.traces, w.ops
 	m.write(o.out)
+}
+
+// htViolate reports a table-level disagreement with the reference map under C12 (the table never loses or
+// resurrects keys) and C18 (differing keys never disturb each other even when their hashes and tags coincide:
+// the traces use colliding, identical and sentinel-valued hashes throughout).
+func htViolate(m *meta, what, replay string) {
+	m.violate("C12", what, replay)
+	m.violate("C18", what, replay)
 }
